@@ -21,6 +21,21 @@
 (*                                 (no '/', unescaped)                       *)
 (*     etcdMsgShared etcd.go:84    the etcd replicate store is rooted at the *)
 (*                                 etcd config's RootPath, not the tenant's  *)
+(*   and one control switch for a defect class the code does NOT have:       *)
+(*     posKeyPos     etcd.go / mysql.go position Get + Delete: the exact     *)
+(*                                 (task, collection) key / predicate is     *)
+(*                                 chosen for POSITIVE ids only, so that the *)
+(*                                 reserved non-positive ids fall into the   *)
+(*                                 whole-task scan / whole-task delete       *)
+(* Collection ids: Colls = ordinary (positive) ids; Reserved = the reserved  *)
+(*   non-positive ids under which the server also keeps checkpoint records   *)
+(*   (server/model/common.go: -10 = ReplicateCollectionID, the checkpoint of *)
+(*   the operation / rpc channel written by Create (cdc_impl.go:586-600) and *)
+(*   advanced by the rpc channel reader (cdc_impl.go getChannelReader ->     *)
+(*   UpdateTaskCollectionPosition(-10, ...)); -1 = TmpCollectionID, the      *)
+(*   task-level record, also what UpdateTaskCollectionPosition stores when   *)
+(*   it is called with id 0 and the task has no record); 0 = the code's      *)
+(*   wildcard.  Only 0 is a wildcard: every other id names ONE record.       *)
 (* Contract part: Allowed (exact effect and result of every operation),      *)
 (*   Frame (all other records unchanged), DroppedKept, DeleteTaskAtomic -    *)
 (*   written over keys only, independent of the backend primitives.          *)
@@ -28,6 +43,9 @@ EXTENDS Integers, Sequences, FiniteSets, TLC, Json
 
 CONSTANTS Roots, Tasks, Colls, Chans, MsgIds,  \* identifier universe of the plans
           ZeroColl,       \* TRUE: plans also use collection id 0 (the code's "any collection of the task")
+          Reserved,       \* reserved non-positive collection ids the plans use, by name: "rpc" = -10, "tmp" = -1
+                          \* (a cfg file cannot spell a negative number)
+          PosKeyPositive, \* control switch, TRUE = defect class "exact position key for positive ids only" (must violate)
           Backend,        \* "mysql" | "etcd"
           DelNoRoot, LikeRaw, MsgAllRaw, EtcdMsgShared,  \* deviation flags, TRUE = as built
           OpsOn,          \* names of the operations the plans use
@@ -37,6 +55,8 @@ CONSTANTS Roots, Tasks, Colls, Chans, MsgIds,  \* identifier universe of the pla
           MaxOps
 
 ASSUME Roots \subseteq {"r", "r1", "r_", "r%"}   \* RootLike / AllLike below are tabulated for these
+ASSUME Reserved \subseteq {"rpc", "tmp"} /\ \A c \in Colls : c > 0
+ResIds == {IF n = "rpc" THEN -10 ELSE -1 : n \in Reserved}
 
 VARIABLES db, prev, last, hist
 vars == <<db, prev, last, hist>>
@@ -103,10 +123,12 @@ ScanRoot(F, be, R, x) == IF F.likeRaw /\ be = "mysql" THEN x.root \in RootLike(R
 DelRoot(F, be, R, x)  == IF F.delNoRoot /\ be = "mysql" THEN TRUE ELSE x.root = R
 MR(F, be, R) == IF F.etcdMsgShared /\ be = "etcd" THEN "" ELSE R
 
+\* the collection ids for which a position Get / Delete addresses every record of the task
+Wild(F, C) == C = 0 \/ (F.posKeyPos /\ C < 0)
 InfoScan(F, be, d, R, T) == {x \in d.i : ScanRoot(F, be, R, x) /\ (T = "" \/ x.task = T)}
-PosScan(F, be, d, R, T, C) == {x \in d.p : ScanRoot(F, be, R, x) /\ x.task = T /\ (C = 0 \/ x.coll = C)}
+PosScan(F, be, d, R, T, C) == {x \in d.p : ScanRoot(F, be, R, x) /\ x.task = T /\ (Wild(F, C) \/ x.coll = C)}
 InfoDel(F, be, d, R, T) == {x \in d.i : DelRoot(F, be, R, x) /\ x.task = T}
-PosDel(F, be, d, R, T, C) == {x \in d.p : DelRoot(F, be, R, x) /\ x.task = T /\ (C = 0 \/ x.coll = C)}
+PosDel(F, be, d, R, T, C) == {x \in d.p : DelRoot(F, be, R, x) /\ x.task = T /\ (Wild(F, C) \/ x.coll = C)}
 MsgAll(F, be, d, R) == {x \in d.m : IF F.msgAllRaw /\ be = "mysql" THEN x.root \in AllLike(R)
                                      ELSE x.root = MR(F, be, R)}
 MsgOne(F, be, d, R, T, M) == {x \in d.m : x.root = MR(F, be, R) /\ x.task = T /\ x.msg = M}
@@ -150,6 +172,8 @@ Outcomes(F, be, op, d) ==
            LET rows == InfoScan(F, be, d, R, "") IN Read(op, d, {ProjI(x) : x \in rows}, Cardinality(rows), TRUE)
       [] op.op = "getPos" ->
            LET rows == PosScan(F, be, d, R, T, 0) IN Read(op, d, {ProjP(x) : x \in rows}, Cardinality(rows), FALSE)
+      [] op.op = "getPosC" ->   \* the store's Get(task, collection): what the update / drop-mark operations read
+           LET rows == PosScan(F, be, d, R, T, C) IN Read(op, d, {ProjP(x) : x \in rows}, Cardinality(rows), FALSE)
       [] op.op = "setState" ->
            LET rows == InfoScan(F, be, d, R, T) IN
            IF rows = {} THEN RMW(op, d, FALSE, d)
@@ -191,6 +215,7 @@ G(d, recs, n) == [db |-> d, recs |-> recs, n |-> n]
 \* the acceptable successful outcomes of an operation; {} = the operation has to fail and change nothing.
 \* Collection id 0 is the code's wildcard ("the collections of the task"): reads and deletes address all
 \* position records of (root, task), updates address exactly one of them (which one is left open).
+\* Every other id - positive, or one of the reserved non-positive ids -10 / -1 - names exactly the record (root, task, id).
 Good(op, b) ==
     LET R == op.root  T == op.task  C == op.coll IN
     CASE op.op = "putTask" -> {G(PutI(b, NewInfo(R, op)), {}, 0)}
@@ -201,6 +226,7 @@ Good(op, b) ==
       [] op.op = "getAll"  -> LET S == {x \in b.i : x.root = R} IN
                               IF S = {} THEN {} ELSE {G(b, {ProjI(x) : x \in S}, Cardinality(S))}
       [] op.op = "getPos"  -> LET S == OwnP(b, R, T, 0) IN {G(b, {ProjP(x) : x \in S}, Cardinality(S))}
+      [] op.op = "getPosC" -> LET S == OwnP(b, R, T, C) IN {G(b, {ProjP(x) : x \in S}, Cardinality(S))}
       [] op.op = "setState" -> {G(PutI(b, SetInfo(x, R, op)), {}, 0) : x \in {y \in OwnI(b, R, T) : StateOk(y, op)}}
       [] op.op = "updPos"  -> LET S == OwnP(b, R, T, C) IN
                               IF S = {} THEN {G(PutP(b, NewPos(R, op, IF C = 0 THEN -1 ELSE C)), {}, 0)}
@@ -256,8 +282,10 @@ Ideal(op, b, a, res) == Allowed(op, b, a, res) /\ Frame(op, b, a) /\ DroppedKept
 Contract == Ideal(last.op, prev, db, last.res)
 
 (* ======================= plans / next-state ================================ *)
-FC == [delNoRoot |-> DelNoRoot, likeRaw |-> LikeRaw, msgAllRaw |-> MsgAllRaw, etcdMsgShared |-> EtcdMsgShared]
-CollsIn == IF ZeroColl THEN Colls \cup {0} ELSE Colls
+FC == [delNoRoot |-> DelNoRoot, likeRaw |-> LikeRaw, msgAllRaw |-> MsgAllRaw, etcdMsgShared |-> EtcdMsgShared,
+       posKeyPos |-> PosKeyPositive]
+CollsPut == Colls \cup ResIds      \* ids a record can be created under directly (Create's Put: collections, -10)
+CollsIn == IF ZeroColl THEN CollsPut \cup {0} ELSE CollsPut
 Mk(name, R, T, C, c, v, va, ns, olds, M, fk, fa) ==
     [op |-> name, root |-> R, task |-> T, coll |-> C, ch |-> c, v |-> v, var |-> va, ns |-> ns, olds |-> olds,
      msg |-> M, fk |-> fk, fa |-> fa]
@@ -267,8 +295,9 @@ Olds == {<<>>, <<0, 2>>}
 
 AllOps(v) ==
        {Mk("putTask", R, T, 1, "ch", v, "p", 1, <<>>, "m", 0, FALSE) : R \in Roots, T \in Tasks}
-  \cup {Mk("putPos", R, T, C, c, v, "p", 1, <<>>, "m", 0, FALSE) : R \in Roots, T \in Tasks, C \in Colls, c \in Chans}
+  \cup {Mk("putPos", R, T, C, c, v, "p", 1, <<>>, "m", 0, FALSE) : R \in Roots, T \in Tasks, C \in CollsPut, c \in Chans}
   \cup {Dflt(n, R, T, v) : n \in {"getTask", "getPos"}, R \in Roots, T \in Tasks}
+  \cup {Mk("getPosC", R, T, C, "ch", v, "p", 1, <<>>, "m", 0, FALSE) : R \in Roots, T \in Tasks, C \in CollsIn}
   \cup {Dflt(n, R, "t", v) : n \in {"getAll", "msgAll"}, R \in Roots}
   \cup {Mk("setState", R, T, 1, "ch", v, "p", ns, o, "m", f[1], f[2]) :
             R \in Roots, T \in Tasks, ns \in {1, 2}, o \in Olds, f \in FaultsOf(2)}
@@ -283,7 +312,7 @@ AllOps(v) ==
 RandFault == LET x == RandomElement(0..13) IN IF x < 7 THEN <<0, FALSE>> ELSE <<x - 7, RandomElement(BOOLEAN)>>
 RandOps(v) == {LET f == RandFault IN
                Mk(n, RandomElement(Roots), RandomElement(Tasks),
-                  IF n = "putPos" THEN RandomElement(Colls) ELSE RandomElement(CollsIn),
+                  IF n = "putPos" THEN RandomElement(CollsPut) ELSE RandomElement(CollsIn),
                   RandomElement(Chans), v, RandomElement({"p", "po", "pot"}), RandomElement({1, 2}),
                   RandomElement(Olds), RandomElement(MsgIds),
                   IF FaultsOn /\ n \in {"setState", "updPos", "dropPos", "delPos", "delTask"} THEN f[1] ELSE 0,
@@ -316,6 +345,6 @@ UniqueKeys(d) == /\ \A x, y \in d.i : SameI(x, y) => x = y
                  /\ \A x, y \in d.m : SameM(x, y) => x = y
 TypeOK == /\ UniqueKeys(db)
           /\ \A x \in db.i : x.task \in Tasks /\ x.state \in 0..2
-          /\ \A x \in db.p : x.task \in Tasks /\ x.coll \in Colls \cup {-1}
+          /\ \A x \in db.p : x.task \in Tasks /\ x.coll \in CollsPut \cup {-1}
           /\ \A x \in db.m : x.task \in Tasks /\ x.msg \in MsgIds
 =============================================================================
